@@ -363,7 +363,56 @@ def c20(prog, rep):
     rep.assumptions += ['the callback stream, argument splitting/unescaping, section scopes and the INI-style parser are not decided']
 
 
+def c08(prog, rep):
+    from . import listtbl as LT, counts as K, own as O, escape as E
+    om = O.OwnModel(prog)
+    LT.rule_c08(prog, rep)
+    K.rule_t4(prog, rep, om, units=[LT.UNIT])
+    E.rule_r2(prog, rep, [LT.UNIT])
+    E.rule_r2_move(prog, rep, [LT.UNIT])
+    E.rule_r2_fill(prog, rep, [LT.UNIT])
+    rep.floor('L1', 2)
+    rep.floor('L2', 2)
+    rep.floor('L3', 2)
+    rep.floor('L4', 8)
+    rep.floor('L5', 5)
+    rep.floor('T4', 4)
+    rep.explanation = (
+        'Structural clauses of the ordered-multimap property in qlisttbl.c: L1 load returns a count incremented in the loading loop '
+        'under the put result; L2 the sort exchanges neighbours only for a strictly positive comparison (stability) and exchanges '
+        'every payload field; L3 save/load use the inverse codec pair under their flags and the same separator parameter; L4 each of '
+        'the four behaviour options sets its own field and each field is read by the operation it governs; L5 every direction '
+        'choice maps forward to first/next and backward to last/prev, insert-at-top links before first; T4 the entry count moves '
+        'with node creation/destruction; R2 payload pointers and sizes stay paired. Not decided: multimap behaviour over histories '
+        'and the 16 option combinations.')
+    rep.assumptions += ['behaviour over histories under the 16 option combinations is not decided']
+
+
+def c09(prog, rep):
+    from . import listrules as LR, counts as K, own as O, escape as E
+    om = O.OwnModel(prog)
+    LR.rule_c09(prog, rep)
+    K.rule_t4(prog, rep, om, units=[LR.LIST])
+    E.rule_r2(prog, rep, [LR.LIST])
+    E.rule_r2_fill(prog, rep, [LR.LIST])
+    rep.floor('E1', 20)
+    rep.floor('E2', 6)
+    rep.floor('E3', 2)
+    rep.floor('E4', 1)
+    rep.floor('T4', 3)
+    rep.explanation = (
+        'E1: through the method table, every queue insert variant (push/pushstr/pushint) resolves to one list end and every '
+        'remove/peek variant (pop*/get*) to the opposite end (FIFO); every stack variant to the same end (LIFO); every grow add '
+        'variant appends at the tail and the flatteners walk first->next. E2: the list\'s first/last wrappers are the 0 / -1 forms of '
+        'the *at operations. E3: the byte total is changed by exactly the stored element size wherever the count changes. E4: the '
+        'link-in is dominated by the size-limit and index-range refusals. T4/R2: count and payload/size pairing in qlist.c. Not '
+        'decided: sequence behaviour of the list over histories and index arithmetic for every (n, index).')
+    rep.assumptions += ['sequence behaviour over histories is not decided']
+
+
 PROPS = {
+    'C09': dict(fn=c09, level='other'),
+    'C08': dict(fn=c08, level='other'),
     'C20': dict(fn=c20, level='other'),
     'C18': dict(fn=c18, level='other'),
     'C10': dict(fn=c10, level='other'),
